@@ -87,11 +87,55 @@ func shortPkg(path string) string {
 
 func qual(p *types.Package) string { return shortPkg(p.Path()) }
 
-func typeKey(t types.Type) string { return types.TypeString(t, qual) }
+var typeKeyCache = map[types.Type]string{}
+
+// typeKey: canonical printed form of a type (byte/rune aliases are normalised to uint8/int32).
+func typeKey(t types.Type) string {
+	if s, ok := typeKeyCache[t]; ok {
+		return s
+	}
+	s := types.TypeString(t, qual)
+	s = replaceWord(s, "byte", "uint8")
+	s = replaceWord(s, "rune", "int32")
+	s = replaceWord(s, "any", "interface{}")
+	typeKeyCache[t] = s
+	return s
+}
+
+func replaceWord(s, w, r string) string {
+	if !strings.Contains(s, w) {
+		return s
+	}
+	var sb strings.Builder
+	for i := 0; i < len(s); {
+		if strings.HasPrefix(s[i:], w) {
+			before := i == 0 || !(isIdentChar(s[i-1]) || s[i-1] == '.')
+			j := i + len(w)
+			after := j >= len(s) || !isIdentChar(s[j])
+			if before && after {
+				sb.WriteString(r)
+				i = j
+				continue
+			}
+		}
+		sb.WriteByte(s[i])
+		i++
+	}
+	return sb.String()
+}
 
 // ---------------------------------------------------------------- sorts of Go types
 
 func leafSort(t types.Type) *Sort {
+	if st, ok := t.(*specT); ok {
+		switch st.kind {
+		case "set":
+			return SArr(leafSort(st.k), SBool)
+		case "arr":
+			return SArr(SInt, leafSort(st.v))
+		}
+		return SInt
+	}
 	switch u := t.Underlying().(type) {
 	case *types.Basic:
 		info := u.Info()
